@@ -222,6 +222,7 @@ let run_xstep net world (c, clock, outs) step =
   | _ -> failwith "step"
 
 let dispatch = function
+  | _ :: "http" :: _ -> "OUT-OF-MODEL"     (* the HTTP transport layer below the provider interface is judged by the oracle only *)
   | net :: mode :: w :: steps when (mode = "xfile" || mode = "xoff") && steps <> [] ->
     let nw = (match net with "bitcoin" -> nw_bitcoin | "testnet" -> nw_testnet | _ -> failwith "net") in
     let world = parse_world w in
